@@ -172,6 +172,7 @@ class DeferDriver:
             ops.append(('disable',))
             for ev in EVENTS:
                 ops.append(('dispatch', ev))
+            ops.append(('clear',))
             return ops
         if ctx.enabled:
             ops.append(('disable',))
@@ -180,6 +181,8 @@ class DeferDriver:
                 ops.append(('dispatch', ev))
         for n in ('L1', 'L2'):
             ops.append(('remove' if n in ctx.registered else 'add', n))
+        if ctx.pending or ctx.registered or not ctx.enabled:
+            ops.append(('clear',))
         return ops
 
     def apply(self, ctx, op):
@@ -199,6 +202,14 @@ class DeferDriver:
             ctx.registered.discard(op[1])
             if ctx.pending:
                 ctx.hits['listeners_changed_while_pending'] += 1
+        elif kind == 'clear':
+            # documented: removes all handlers and pending events, enables
+            d.clear()
+            if ctx.pending:
+                ctx.hits['clear_with_backlog'] += 1
+            ctx.registered = set()
+            ctx.pending = []
+            ctx.enabled = True
         elif kind == 'disable':
             d.dispatch_enabled = False
             ctx.enabled = False
@@ -498,6 +509,7 @@ def run(tier, rep):
                      fault_disable_dispatch=1, fault_disable_enable=1,
                      dispatch_behind_backlog=1,
                      dispatch_while_enabled_with_backlog=1,
+                     clear_with_backlog=1,
                      listeners_changed_while_pending=1,
                      queued_without_listener=1)
     for name, (driver, kw) in drivers(tier).items():
